@@ -277,6 +277,10 @@ func c04Gen(g *core.Gen) {
 	names := []string{"plain.txt", "café.bin", "文件.dat", "\U0001F600x.bin", "with space"}
 	base := scen.P1Config{Sizes: []int{7, 3, 12, 1, 9}, Names: names, Volumes: 3}
 	c04Deviate(g, base, 2)
+	// look-alike names: pairs that differ only in letter case (ASCII, Latin-1, the Kelvin sign), in a trailing dot or
+	// blank, or that are prefixes of each other - distinct files on a case-sensitive filesystem
+	look := scen.P1Config{Sizes: []int{7, 3, 12, 1, 9, 4, 6, 2}, Names: []string{"Readme.txt", "README.TXT", "\u00e9t\u00e9", "\u00c9T\u00c9", "K", "\u212a", "data", "data.bin"}, Volumes: 3}
+	c04Deviate(g, look, 2)
 	big := scen.P1Config{Sizes: []int{16383, 16384, 16385, 20000}, Volumes: 4}
 	c04Deviate(g, big, 2)
 	for _, k := range []int{6, 7} {
